@@ -47,34 +47,35 @@ func (m *multiFlag) Set(s string) error { *m = append(*m, s); return nil }
 
 func main() {
 	var (
-		dir        = flag.String("dir", "/repo", "module directory to load")
-		harnessDir = flag.String("harness", "", "directory with harness files laid out relative to the module root")
-		zzsymDir   = flag.String("zzsym", "/verif/harness/_zzsym", "directory with internal/zzsym")
-		prefix     = flag.String("prefix", "ZZ_", "harness function prefix")
-		only       = flag.String("only", "", "run only this harness function")
-		property   = flag.String("property", "", "property id")
-		tier       = flag.String("tier", "quick", "quick|thorough")
-		evidence   = flag.String("evidence", "", "evidence file to write")
-		workers    = flag.Int("workers", runtime.NumCPU(), "parallel workers")
-		maxSteps   = flag.Int("max-steps", 400000, "instruction budget per path")
-		maxPaths   = flag.Int("max-paths", 200000, "path budget per harness")
-		timeoutMs  = flag.Int("timeout-ms", 20000, "solver timeout per query")
-		solver     = flag.String("solver", "z3", "z3|z3-new|cvc5")
-		trace      = flag.Bool("trace", false, "trace instructions")
-		knownFile  = flag.String("known", "/verif/known_findings.json", "known findings file")
-		replayDir  = flag.String("replays", "/verif/replays", "where to store counterexample models")
-		noReplay   = flag.Bool("no-replay", false, "skip native replay (debugging only; never exit 0/1 on violations)")
-		witnesses  = flag.Int("witnesses", 6, "completed paths per harness to validate natively")
-		initAllow  multiFlag
-		noop       multiFlag
-		pkgs       multiFlag
+		dir         = flag.String("dir", "/repo", "module directory to load")
+		harnessDirs multiFlag
+		zzsymDir    = flag.String("zzsym", "/verif/harness/_zzsym", "directory with internal/zzsym")
+		prefix      = flag.String("prefix", "ZZ_", "harness function prefix")
+		only        = flag.String("only", "", "run only this harness function")
+		property    = flag.String("property", "", "property id")
+		tier        = flag.String("tier", "quick", "quick|thorough")
+		evidence    = flag.String("evidence", "", "evidence file to write")
+		workers     = flag.Int("workers", runtime.NumCPU(), "parallel workers")
+		maxSteps    = flag.Int("max-steps", 400000, "instruction budget per path")
+		maxPaths    = flag.Int("max-paths", 200000, "path budget per harness")
+		timeoutMs   = flag.Int("timeout-ms", 20000, "solver timeout per query")
+		solver      = flag.String("solver", "z3", "z3|z3-new|cvc5")
+		trace       = flag.Bool("trace", false, "trace instructions")
+		knownFile   = flag.String("known", "/verif/known_findings.json", "known findings file")
+		replayDir   = flag.String("replays", "/verif/replays", "where to store counterexample models")
+		noReplay    = flag.Bool("no-replay", false, "skip native replay (debugging only; never exit 0/1 on violations)")
+		witnesses   = flag.Int("witnesses", 6, "completed paths per harness to validate natively")
+		initAllow   multiFlag
+		noop        multiFlag
+		pkgs        multiFlag
 	)
+	flag.Var(&harnessDirs, "harness", "directory with harness files laid out relative to the module root (repeatable)")
 	flag.Var(&initAllow, "init", "extra package path prefix whose init may run")
 	flag.Var(&noop, "noop", "package path prefix whose functions are no-ops")
 	flag.Var(&pkgs, "pkg", "package pattern(s) to load (default: packages containing harness files)")
 	flag.Parse()
 	t0 := time.Now()
-	if *harnessDir == "" || *property == "" {
+	if len(harnessDirs) == 0 || *property == "" {
 		fmt.Fprintln(os.Stderr, "usage: gosx -property Cxx -harness DIR [-dir MODULE]")
 		os.Exit(2)
 	}
@@ -88,9 +89,16 @@ func main() {
 	if err != nil {
 		fatal(err)
 	}
-	ov2, real2, err := overlayFromDir(*harnessDir, *dir)
-	if err != nil {
-		fatal(err)
+	ov2, real2 := map[string][]byte{}, map[string]string{}
+	for _, hd := range harnessDirs {
+		o, r, err := overlayFromDir(hd, *dir)
+		if err != nil {
+			fatal(err)
+		}
+		for k, v := range o {
+			ov2[k] = v
+			real2[k] = r[k]
+		}
 	}
 	overlay := map[string][]byte{}
 	realFiles := map[string]string{}
@@ -121,9 +129,9 @@ func main() {
 		fatal(err)
 	}
 	eng.modulePath = modPath
-	eng.initAllow = append([]string{"github.com/evstack/ev-node", "context", "io", "io/fs", "github.com/ipfs/go-datastore", "unicode/utf8", "strconv", "math/bits", "encoding/binary", "sort", "bytes", "strings"}, initAllow...)
-	eng.initDeny = []string{"/types/pb/", "/pkg/p2p", "/pkg/rpc", "/pkg/config", "/pkg/cmd"}
-	eng.noopPkgs = append([]string{"go.uber.org/zap", "github.com/ipfs/go-log/v2", "github.com/go-kit/kit/metrics", "log", "log/slog", "github.com/prometheus/client_golang"}, noop...)
+	eng.initAllow = append([]string{"github.com/evstack/ev-node", "context", "io", "io/fs", "github.com/ipfs/go-datastore", "github.com/libp2p/go-libp2p/core/crypto", "unicode/utf8", "strconv", "math/bits", "encoding/binary", "sort", "bytes", "strings"}, initAllow...)
+	eng.initDeny = []string{"/types/pb/", "/crypto/pb", "/pkg/p2p", "/pkg/rpc", "/pkg/config", "/pkg/cmd"}
+	eng.noopPkgs = append([]string{"go.uber.org/zap", "github.com/ipfs/go-log/v2", "log", "log/slog", "github.com/prometheus/client_golang"}, noop...)
 
 	var names []string
 	if *only != "" {
@@ -263,14 +271,14 @@ func main() {
 			fatal(err)
 		}
 	}
+	for _, m := range rep.Inconclusive {
+		fmt.Printf("INCONCLUSIVE %s\n", trunc(m, 1200))
+	}
 	switch {
 	case confirmed > 0:
 		exit = 1
 	case len(rep.Inconclusive) > 0:
 		exit = 2
-		for _, m := range rep.Inconclusive {
-			fmt.Printf("INCONCLUSIVE %s\n", trunc(m, 1200))
-		}
 	}
 	fmt.Printf("property %s tier=%s: harnesses=%d paths=%d violations=%d known=%d inconclusive=%d witnesses_ok=%d wall=%.1fs (load %.1fs)\n",
 		*property, *tier, len(rep.Harnesses), rep.TotalPaths(), confirmed, len(knownHits), len(rep.Inconclusive), rep.WitnessOK, rep.Wall.Seconds(), eng.loadTime.Seconds())
